@@ -12,1205 +12,1037 @@ Definition show_fres (r : fres) : string :=
   end.
 Definition check (rs : list rune) : string := digest (show_fres (format_res rs)).
 Definition full (rs : list rune) : string := show_fres (format_res rs).
-Eval vm_compute in ("<<<M121>>>" ++ check (runes_of_ascii "options {
-    tag
-=
-int32 ; } root
-    packet T { repeat a1 { match x_y_z as charz { [	00,
-// trailing space 
-// c
-4294967296,""it's"" ,
-    // " ++ [128512]%N ++ runes_of_ascii " emoji
-    """ ++ [28040; 24687]%N ++ runes_of_ascii """ ]:	zchar
-, [ ""packet"" ,
-/// triple
-/// triple
-""x y"" , ""it's"" ,""abc""
-,""it's""
-    ]	: string_, 0  :Z9_ } , }
-// `tick` ""quote"" 'q'
-// " ++ [128512]%N ++ runes_of_ascii " emoji
-, match u8x as pack { [
-0123456789
-    //
-    , ""x y"" /// triple
-] :trueish, } , @calculatedFrom( ""a\""b"" ) repeat string_`two words` ,repeat //	t
-calculatedFrom
-`crlf
-line` , chars  {i16 chars , }  ,
-    } MetaData x_y_z{  }
-    options
-    {  } packet charz { u16 i64_@lengthOf( Packet ) `say ""hi""`
-    ,	match len as Packet {
-    [ """ ++ [28040; 24687]%N ++ runes_of_ascii """
+Eval vm_compute in ("<<<M233>>>" ++ check (runes_of_ascii "
+packet rootA { char[ 0  ]  len @calculatedFrom(// `tick` ""quote"" 'q'
+""abc"" ) , u8
     // trailing space 
-    ] : chars ,4294967296
-:a1 ,
-    1 : int
-,
-// c
+    uint8x @lengthOf(roots
+) // 50% %s
+`a\`
+, int
+    @calculatedFrom(""a\""b"" ) ,
+match msg_type as i8i8 { ""\" ++ [233]%N ++ runes_of_ascii """ :
+// trailing space 
 // a // b
-42: Logon[ 255 ]
-    //
+Header , 1 /// triple
+:
+    zchar
+,
+[
+    ""\n"" ] :string_
+""\n""
+:i8i8 0123456789// c
+:Logon[00 ,007 , ""1"",
+""it's""//
+, ""// no comment"" ,0, ""a\\"" , 007 // " ++ [27880; 37322]%N ++ runes_of_ascii "
+] /// triple
+:BodyLength }
+,
+    match
+    rootA
+// @lengthOf(
+// " ++ [27880; 37322]%N ++ runes_of_ascii "
+as
+    chars
+{ 7 :
+    Header} , A Foo // `tick` ""quote"" 'q'
+`tab	here`
+,float64
+charz @calculatedFrom(""\" ++ [233]%N ++ runes_of_ascii """ ) ,	f32 tag , @lengthOf( x ) // `tick` ""quote"" 'q'
+@leftPad
+    (	'\x00' )	crc { repeat i16 options1 `tab	here` , match options1
+as charz { ""CRC32""	: u , 0 // " ++ [27880; 37322]%N ++ runes_of_ascii "
+: //
+charz
+""x y""
+    :	roots	, [ ""CRC32""
+,
+    """ ++ [233]%N ++ runes_of_ascii "t" ++ [233]%N ++ runes_of_ascii """
+]
+: i8i8
+,}
+    ,  repeat // " ++ [27880; 37322]%N ++ runes_of_ascii "
+falsey { match chars as
+asx	{ ""abc"" : stringy
+,
+    } ,match lengthOf as charz {
+    0123456789	:
+// c
+//
+o // " ++ [27880; 37322]%N ++ runes_of_ascii "
+,
+    ""// no comment""
+: chars ,[
+    // @lengthOf(
+    """"  , 7
+    , 255 ,00  , 42	]
     :
-    Packet , }, // `tick` ""quote"" 'q'
-@lengthOf(
-a1
-    ) body  { repeat	u32
-    Z9_ `doc` , }, @leftPad (
-    '\x00'
-)int16
-options1 @calculatedFrom(
-    """ ++ [233]%N ++ runes_of_ascii "t" ++ [233]%N ++ runes_of_ascii """	) ,@tag( 65535 ) repeat leftPad
-    `100% of %d`
-, //	t
-@calculatedFrom( ""x y"" ) @lengthOf(	Header ) @tag( 1
-) match // `tick` ""quote"" 'q'
-Foo
-    as	T
-{ 0123456789 :T// @lengthOf(
-,
-10	: charz , """ ++ [28040; 24687]%N ++ runes_of_ascii """ : Packet[0123456789 //x
-,	""// no comment"",
-7
-    ,  00 //
-, 10
-    ,3 ,
-00 ,
-""\" ++ [233]%N ++ runes_of_ascii """] : Foo }
-,
-@calculatedFrom( ""packet"" ) @rightPad	( ' ' ) @tag( 0)i64 chars , @lengthOf(
-    MetaDataX
-    ) int8 A
-@lengthOf( repeatCount ) `a\` ,char[1  ] roots
-@calculatedFrom(  """ ++ [128512]%N ++ runes_of_ascii """
-) ,
+float  , } ,	match
+    a1 as lengthOf
+{ [ /// triple
+65535	, 1 ]: int
+""{,}"": calculatedFrom ,
+""`tick`"" :  float// @lengthOf(
+""// no comment""
+: Packet[ // c
+""\" ++ [233]%N ++ runes_of_ascii """ ,	""// no comment"",
+3	,
+    """ ++ [128512]%N ++ runes_of_ascii """
+    // packet A { u8 x, }
+    , 255]  : int ,
+//	t
+// trailing space 
+} ,},
+}	,}  options {
+msg_type= true
+lengthOf =zchar[
+    //
+    1 // @lengthOf(
+]; } root
+    //
+    packet packetx { i8 // 50% %s
+tag
+`line1
+line2`,
+    // @lengthOf(
+    }")).
+Eval vm_compute in ("<<<M1931>>>" ++ check (runes_of_ascii "root packet u8x {
+    // trailing space 
+    repeat u64 Pad,
+    i64_ @calculatedFrom(""x y"") `100% of %d`,
+    @calculatedFrom(""a	b"")
+    @lengthOf(Header)
+    @lengthOf(zchar)
+    i32 A @lengthOf(falsey),
+    repeat zchar[10] f32a `
+    `,
+    repeat f64 rootA `line1
+    line2`,// packet A { u8 x, }
+    match string_ as o {
+        65535 : options1,
+        // a // b
+        // " ++ [128512]%N ++ runes_of_ascii " emoji
+        ""// no comment"" : packetx,
+        ""\" ++ [233]%N ++ runes_of_ascii """ : lengthOf,
+        65535 : BodyLength,
+        ""packet"" : a1,
+    },
+    @tag(4294967296)
+    @tag(7)
+    @rightPad('\x00')
+    repeat uint64 i8i8,
+    char[42] string_ `// not a comment`,
 }
+
+MetaData pack {
+    x o `two words`,
+    x As,
+    uint64 BodyLength `// not a comment`,
+    x a1 ``,
+    T int `it's`,
+}
+
+MetaData falsey {
+    Header BodyLength ``,
+}
+
+root packet trueish {
+    i16 trueish @calculatedFrom(""`tick`"") `line1
+    line2`,
+    f64 As,
+    string T @lengthOf(pack) `100% of %d`,
+    @lengthOf(matchKey)
+    repeat char[00] lengthOf `line1
+    line2`,
+    zchar[3] _x @calculatedFrom(""`tick`""),
+    // " ++ [27880; 37322]%N ++ runes_of_ascii "
+    // trailing space 
+    @tag(00)
+    //	t
+    zchar[4294967296] msg_type,
+    repeat body,
+    Logon,
+    @tag(1)
+    @calculatedFrom(""packet"")
+    zchar[3] Z9_,
+}")).
+Eval vm_compute in ("<<<M1792>>>" ++ check (runes_of_ascii "packet falsey {
+    /// triple
+    string i8i8 @calculatedFrom(""a\\""),// " ++ [128512]%N ++ runes_of_ascii " emoji
+    @calculatedFrom(""" ++ [233]%N ++ runes_of_ascii "t" ++ [233]%N ++ runes_of_ascii """)
+    repeat a1,
+}
+
+options {
+    falsey = 0
+    // packet A { u8 x, }
+    // c
+    Foo = ""\" ++ [233]%N ++ runes_of_ascii """;
+}
+
+root packet packetx {
+    metadata @lengthOf(asx),
+    // @lengthOf(
+    //	t
+    char[] BodyLength @calculatedFrom(""" ++ [233]%N ++ runes_of_ascii "t" ++ [233]%N ++ runes_of_ascii """) `" ++ [233]%N ++ runes_of_ascii "`,
+    metadata {
+        repeat rootA i64_ `a\`,
+        u8x chars,
+        repeat int64 string_ `{ , }`,
+    },
+    @tag(4294967296)
+    u64 tag @lengthOf(pack),// `tick` ""quote"" 'q'
+    u128 Z9_ ``,
+    repeat i16 lengthOf,
+    @calculatedFrom(""`tick`"")
+    // `tick` ""quote"" 'q'
+    // @lengthOf(
+    repeat char[00] Packet `it's`,
+    uint16 Pad,
+    @calculatedFrom(""a\\"")
+    match int as pack {
+        00 : u,
+        [""x y""] : asx,
+        """ ++ [28040; 24687]%N ++ runes_of_ascii """ : string_,
+        // trailing space 
+        1 : Pad,
+    },
+    @calculatedFrom(""" ++ [233]%N ++ runes_of_ascii "t" ++ [233]%N ++ runes_of_ascii """)
+    roots @calculatedFrom(""// no comment""),
+}
+
+packet zchar {
+    // 50% %s
+    @leftPad('0')
+    T `line1
+    line2`,
+}")).
+Eval vm_compute in ("<<<M1>>>" ++ check (runes_of_ascii "root packet
+    len { match x as metadata// " ++ [27880; 37322]%N ++ runes_of_ascii "
+{ [
+    1
+// packet A { u8 x, }
+//x
+,
+    0 ,	"""" , ""a	b"",00 ]
+    :	pack , [""// no comment"" , ""x y""
+, """ ++ [233]%N ++ runes_of_ascii "t" ++ [233]%N ++ runes_of_ascii """ ]:	Packet //
+,	} , repeat lengthOf u128, @calculatedFrom(
+    // " ++ [128512]%N ++ runes_of_ascii " emoji
+    ""it's""
+) @lengthOf( calculatedFrom
+// trailing space 
+// 50% %s
+) @lengthOf( u )	metadata
+{ int8 lengthOf
+    `crlf
+line` ,} ,
+@tag(// trailing space 
+4294967296 ) calculatedFrom {f32 i64_ // packet A { u8 x, }
+`" ++ [233]%N ++ runes_of_ascii "`,} ,@lengthOf(
+BodyLength  )	repeat//x
+char[65535 ] float
+// `tick` ""quote"" 'q'
+// c
+,@calculatedFrom(
+""\" ++ [233]%N ++ runes_of_ascii """) i64_ { match
+stringy as
+    _x{ //	t
+[ 4294967296 ,
+    3 ]
+:	i8i8
+, [ ""a\""b"" ]: x_y_z ,
+    3:len , }
+    , }  , @tag( // trailing space 
+0)
+zchar[
+    7
+] x_y_z ,@lengthOf( Header )
+repeat
+// 50% %s
+/// triple
+u64 As `
+` ,// " ++ [27880; 37322]%N ++ runes_of_ascii "
+@rightPad
+    ( ) /// triple
+@rightPad (  '\x00') u16
+Header	`{ , }` , }
 ")).
-Eval vm_compute in ("<<<M1666>>>" ++ check (runes_of_ascii "packet
-
-    metadata { float// " ++ [27880; 37322]%N ++ runes_of_ascii "
-  	,
-    repeat
-    string
-calculatedFrom,  @rightPad
-
+Eval vm_compute in ("<<<M291>>>" ++ check (runes_of_ascii "MetaData len { float  roots
+    `u8 x,` ,	u32 int `" ++ [233]%N ++ runes_of_ascii "` , } root packet x{ @tag(1	)repeat charz
+, Pad @calculatedFrom( """ ++ [233]%N ++ runes_of_ascii "t" ++ [233]%N ++ runes_of_ascii """
+)
+,match int as
+    u8x { //x
+0 :
+leftPad, [  1,0123456789 , 10 ] : uint8x }
+,@leftPad( ) /// triple
+repeat u128
+    { f64 _x `two words`
+,T @calculatedFrom(""\n""
+) `u8 x,`
+    /// triple
+    ,match
+A as crc{ 3:
+    // a // b
+    leftPad
+    ,""" ++ [128512]%N ++ runes_of_ascii """ : falsey , [ """ ++ [233]%N ++ runes_of_ascii "t" ++ [233]%N ++ runes_of_ascii """ ,
+4294967296,
+""" ++ [28040; 24687]%N ++ runes_of_ascii """
+, ""a	b"" , 00 // a // b
+,""" ++ [233]%N ++ runes_of_ascii "t" ++ [233]%N ++ runes_of_ascii """  ] :
+    rootA	,  ""1""
+    :MetaDataX , } , f32
+o@calculatedFrom( ""// no comment"" ) `// not a comment`
+,// a // b
+} ,
+    chars@calculatedFrom( ""{,}""
+)  , @rightPad
     (
-' '
+' ' ) @tag( 0 )  repeat BodyLength``,body ,
+}
+MetaData	T
+{len i8i8
+    , }options { f32a = true } packet falsey { }
+")).
+Eval vm_compute in ("<<<M1461>>>" ++ check (runes_of_ascii "
+packet float // @lengthOf(
+{}
+    root
+
+packet Foo  {
+
+@calculatedFrom( ""\" ++ [233]%N ++ runes_of_ascii """
+	) 
+char[
+
+    7 ]
+u128, @calculatedFrom(
+	""1""
+)	repeat char[
+3
+] u `100% of %d`  , u128
+	// " ++ [27880; 37322]%N ++ runes_of_ascii "
+
+	,@tag(
+
+    3 
+)
+char[3]
+    rootA  `two words`  //x
+  ,@leftPad
+	(	) 
+metadata
+    @lengthOf( 	 //x
+leftPad	) , string  
+      // 50% %s
+
+	i8i8
+	@calculatedFrom(""{,}""
+) 
+, 
+repeat int32 T
+,
+@calculatedFrom(
+
+""abc"" 
+)
+
+    @lengthOf( 
+options1
+) @lengthOf( 
+options1	) match	T // " ++ [27880; 37322]%N ++ runes_of_ascii "
+		as body	// a // b
+		{
+
+    ""{,}""
+// `tick` ""quote"" 'q'
+  //	t
+	  :
+    // packet A { u8 x, }
+
+	//
+stringy
+    ,
+
+},  @lengthOf(Packet ) leftPad`tab	here`	,
+    }
+")).
+Eval vm_compute in ("<<<M1158>>>" ++ check (runes_of_ascii "// top
+MetaData // c0a
+  // c0b
+msg_type // c1
+{ int32
+    // c3
+As // c4a
+  // c4b
+`crlf
+line` // c5a
+  // c5b
+,
+    // c6
+MetaDataX // c7a
+  // c7b
+x
+    // c8
+`a\` // c9a
+  // c9b
+, // c10a
+  // c10b
+int8 // c11
+_x // c12a
+  // c12b
+, // c13a
+  // c13b
+char[]
+    // c14
+As
+    // c15
+`u8 x,` // c16a
+  // c16b
+,
+    // c17
+zchar[ // c18
+3 // c19
+] // c20
+uint8x // c21a
+  // c21b
+, // c22a
+  // c22b
+As // c23a
+  // c23b
+Foo
+    // c24
+, // c25a
+  // c25b
+} // c26
+root // c27a
+  // c27b
+packet // c28a
+  // c28b
+repeatCount // c29a
+  // c29b
+{ // c30
+} // c31
+")).
+Eval vm_compute in ("<<<M1605>>>" ++ check (runes_of_ascii "root packet x {
+}
+
+options {
+    msg_type = false;
+    Z9_ = 0;
+    // c
+}
+
+MetaData metadata {
+}
+
+packet _x {
+    @tag(65535)
+    match BodyLength as metadata {
+        10 : trueish,
+        [""{,}""] : u,
+    },
+    @calculatedFrom(""CRC32"")
+    @rightPad('0')
+    lengthOf string_,// 50% %s
+    @lengthOf(matchKey)
+    Packet {
+        lengthOf @lengthOf(uint8x) ``,
+        i8i8 {
+            repeat msg_type lengthOf,
+            // c
+            matchKey,
+        },
+        o @lengthOf(lengthOf),
+    },
+}
+//	t")).
+Eval vm_compute in ("<<<M1476>>>" ++ check (runes_of_ascii "// top
+options {
+    LittleEndian = true;
+}// c6
+
+packet Sub {
+    // c9a
+    // c9b
+    u8 a,
+    // c12
+    @calculatedFrom(""CRC16"")
+    // c15a
+    // c15b
+    u64 SubSum,// c18a
+    // c18b
+}
+
+// c19
+root packet Frame {
+    // c23
+    u16 MsgType,// c26
+    u16 BodyLen @lengthOf(Body),// c32a
+    // c32b
+    Sub Body,// c35
+    string note,
+    // c38
+    @calculatedFrom(""CRC16"")
+    // c41a
+    // c41b
+    u64 Checksum,
+    // c44
+    u8 tail,// c47
+}// c48a
+// c48b")).
+Eval vm_compute in ("<<<M1726>>>" ++ check (runes_of_ascii "
+packet  pack
+    { @rightPad(
+'\x00'
 	)
 
-    chars
-a1 , 
-@leftPad
-	(
-    '0'  )
-@tag(  255 ) @calculatedFrom(	""" ++ [233]%N ++ runes_of_ascii "t" ++ [233]%N ++ runes_of_ascii """
-
-)
-
-match
-
-    trueish	as
-x
-
-{// packet A { u8 x, }
-    ""x y""  :  calculatedFrom [
-
-42
-
-    ]
-	    // 50% %s
-		: float ,
-3 // @lengthOf(
-
-:
-	packetx 	 // c
-
-  ,
-} ,
-
-    zchar[
-00]
-	crc 
-,
-
-repeat
-
+options1, repeat
+f32	Packet 
+`u8 x,` 
+,repeat 
+Logon{
+repeat a1{
 char[
-
-    1
-    ]	roots
-	`doc`	,// trailing space 
-
-match
-	float
-	as
-    Logon
-{ 7
-
-    :
-    metadata 
-, } ,
-@lengthOf(Logon	)
-    @tag(
-
-    00
-
-)
-
-    @tag(42
-    )	match
-Logon as
-    options1{7 
-:	MetaDataX
-3 : 	 // " ++ [128512]%N ++ runes_of_ascii " emoji
-    calculatedFrom  ,
-	10
-:
-	Pad	// 50% %s
-  ,
-
-    [	""" ++ [128512]%N ++ runes_of_ascii """ ,  ""// no comment""  ]	: packetx
-    ,[ 
-42
-, 
-""packet""
-	,""1"", ""a\""b"",
-    42]	:
-	Z9_
-
-    }
-    ,float32  // a // b
-  falsey 	 //	t
-    	`{ , }`,
-
-@calculatedFrom(
-""CRC32""
-
-    )
-i64 As `doc`
-,
-
-}	/// triple
-      packet _x// " ++ [27880; 37322]%N ++ runes_of_ascii "
-	{
-
-repeat
-    //	t
-      u{ 
-	// " ++ [27880; 37322]%N ++ runes_of_ascii "
-    repeat  zchar
-
-    calculatedFrom  //	t
-	  `a\`  ,leftPad A  `it's`
-,
-    string leftPad 
-@lengthOf(
-
-Pad	)``
-,
-}
-,	}
-// a // b
-")).
-Eval vm_compute in ("<<<M1358>>>" ++ check (runes_of_ascii "  options{
-LittleEndian
-
-    =
-false 
-;
-StringPrefixLenType
-=
-u16
-
-    ;
-	ArrayPrefixLenType=u8
-
-    ;
-FixedStringPadChar
-=	'0'
-
-    ;
-} packet
-    Leg 
-{
-zchar[1
-] Ref
-	,
-
-repeat
-string
-    count, repeat InMsgkind21
-
-{
-
-repeat
-
-char[ 2
-	]
-price
-    , uint64 
-sym
-    ,
-    zchar[  9
-    ]
-msgKind 
-, 
-}
+0
+] tag	, u64 leftPad
 
 ,
-
-zchar[ 5 ] Note,  }
-	packet
-	Ack {	u16 seqNo
-    ,  repeat
-
-    char[1
-    ]
-	Acct 
-,
-
-    @leftPad	( ' '
-    ) 
-char[
-
-    4] msgKind ,repeat InTag747{Leg	, }
-, 
-repeat	string Tail
-    , Leg	,}
-	packet Trade
-
-{  u64 
-clOrdID
-
-, repeat
-
-InLastpx24
-{
-char[
-
-    10 ]	Note
-	,
-char[
-3
+}// 50% %s
+, repeatCount,
+	repeat	// packet A { u8 x, }
+	  BodyLength 	 /// triple
+	,	}
+    ,  repeat char[] packetx	,  char[ 00
 ]
-    Qty , repeat  char[
-    2 ]  Side2
-	,
-	Ack
+tag
 
-,
-repeat InX47  {
-    Ack,
-	}
-    ,
-
-    }
-	,
-} root
-
-    packet Heartbeat  {
-
-repeat
-    u64 
-Acct  ,	string	lastPx ,
-u8
-Side2
-
-,match
-Side2
-    as  Body {2
-    : 
-Trade
-
-    , 
-157 : Ack
-    ,46
-
-    : 
-Leg,
-}  ,
-
-    u32
-
-sym 
-@calculatedFrom(	""CRC32""
-
-    ) 
-,
-
-}
-")).
-Eval vm_compute in ("<<<M1546>>>" ++ check (runes_of_ascii "
-options{// c1
-	LittleEndian 
-  // c2
-  	=
-
-// c3
-	true// c4a
-    // c4b
-;	// c5
-	}  // c6a
-
-// c6b
-packet
-Sub// c8
-
-	{// c9
-
-	u8
-
-    a // c11
-
-  ,  
-  // c12
-u16 SubSum 	 // c14
-    @calculatedFrom(  // c15a
-		// c15b
-    ""CRC16""
-    // c16
-  )  // c17a
-// c17b
-, 
-    // c18
-	  } 	 // c19
-
-root	// c20a
-
-	// c20b
-    packet 	 // c21a
-  	// c21b
-    Frame
-// c22
-      {  
-  // c23
-		u16 MsgType  // c25a
-// c25b
-  ,  u16  // c27
-	BodyLen	@lengthOf(	Body)// c31a
-		// c31b
-	  ,
-
-    Sub
-	Body	// c34a
-
-// c34b
-
-, 	 // c35a
-
-	// c35b
-    string  // c36
-
-  note
-// c37
-	,	// c38a
-  // c38b
-u16
-
-// c39
-    	Checksum
-        // c40
-    @calculatedFrom(	// c41a
-  // c41b
-  ""CRC16"" 	 // c42a
-
-  // c42b
-    	)  // c43
-	,
-	u8 // c45
-    	tail
-	    // c46
-	,
-    // c47
-  	}// c48
-")).
-Eval vm_compute in ("<<<M1197>>>" ++ check (runes_of_ascii "// top
-options
-    // c0
-{ } // c2a
-  // c2b
-MetaData // c3a
-  // c3b
-packetx { int // c6a
-  // c6b
-falsey
-    // c7
-`two words` , // c9
-int32 // c10
-trueish // c11a
-  // c11b
-,
-    // c12
-char[] // c13a
-  // c13b
-u8x , A // c16a
-  // c16b
-x
-    // c17
-`// not a comment` // c18a
-  // c18b
-, // c19
-} // c20a
-  // c20b
-root // c21a
-  // c21b
-packet // c22
-i8i8 { @lengthOf( repeatCount // c26
-) // c27a
-  // c27b
-@tag( // c28
-1 // c29
-) @calculatedFrom(
-    // c31
-""a	b""
-    // c32
-) // c33
-string // c34a
-  // c34b
-stringy // c35
-@calculatedFrom(
-    // c36
-""\n"" // c37a
-  // c37b
-) // c38a
-  // c38b
-`line1
-line2`
-    // c39
-, // c40
-pack // c41
-`100% of %d` // c42
-,
-    // c43
-} // c44
-")).
-Eval vm_compute in ("<<<M1735>>>" ++ check (runes_of_ascii "
-packet charz
-
-{ 
-repeat  i64_  , trueish
-{repeat 
-_x , repeatCount,
-repeat
-
-u16
-
-// " ++ [128512]%N ++ runes_of_ascii " emoji
-  // a // b
+@lengthOf(  o ), } packet
 matchKey
 
-    `
-`	,
-trueish 
-@lengthOf( Z9_)
-,
-}
+    { repeat	As
+u8x `it's`
+    ,}options
 
-    , zchar[ 
-3
-]body 
-,@rightPad  // @lengthOf(
-	(' ' ) body
-	packetx
-
-`{ , }`  ,	// packet A { u8 x, }
-
-repeat matchKey 
-{
-uint8
-metadata
-	`` 
-// @lengthOf(
-, trueish @calculatedFrom( ""abc""
-    )
-,
-
-    }
-
-    , 
-@lengthOf(  packetx )
-int32
-	uint8x
-	`tab	here`  , @rightPad	//
-
-(
-
-)
-@rightPad
-    () f32a
-	// " ++ [27880; 37322]%N ++ runes_of_ascii "
-    // a // b
-    	,
-	tag
-_x
-	`a\`
-,}
-
-    packet a1
-{
-    @tag(
-    4294967296 
-)repeat
-    f32 a1`line1
-line2`  ,
-
-}")).
-Eval vm_compute in ("<<<M296>>>" ++ check (runes_of_ascii "options{
-u128 = ""// no comment""
-    }  root
-packet Z9_ { repeat
-char[] i8i8,
-float64 MetaDataX , repeat rootA { msg_type@calculatedFrom(
-    ""\" ++ [233]%N ++ runes_of_ascii """ )
-    , match
-float
-    as	_x // " ++ [128512]%N ++ runes_of_ascii " emoji
-{ ""a\""b""
-:u ,[ ""a	b"" // " ++ [27880; 37322]%N ++ runes_of_ascii "
-,
-    ""CRC32"" // a // b
-,10 /// triple
-,
-    007 , 255 , ""x y"", 42 //	t
-, 3 ]: msg_type
-,[
-    ""1"" //	t
-, ""\n"" ,  4294967296
-, ""abc"" ,	""// no comment"" , //x
-""\n"" ,1] //	t
-: int
-    ,[
-    10 ] :As , [ 0
-]	: zchar , 7// " ++ [27880; 37322]%N ++ runes_of_ascii "
-: A , } , } ,	char[]zchar @lengthOf( tag ) , } options { body
-    = ""1"" trueish	= ' '//x
-; }")).
-Eval vm_compute in ("<<<M1537>>>" ++ check (runes_of_ascii "MetaData u128 {
-}
-
-MetaData a1 {
-}// " ++ [128512]%N ++ runes_of_ascii " emoji
-
-root packet o {
-    char[10] stringy @lengthOf(Z9_),
-    match x_y_z as stringy {
-        3 : float,
-    },
-    @leftPad(
-    ' ' )
-    u128 {
-        repeat i32 msg_type `it's`,
-        x,
-        repeat char[65535] T,
-        match A as i8i8 {
-            """ ++ [128512]%N ++ runes_of_ascii """ : Logon,
-        },
-    },
-}
-
-MetaData x_y_z {
-    // @lengthOf(
-    options1 a1,
-    u8x x_y_z `tab	here`,
-    char MetaDataX,// " ++ [27880; 37322]%N ++ runes_of_ascii "
-    zchar[65535] chars,
-    char[] crc `doc`,
-}")).
-Eval vm_compute in ("<<<M13>>>" ++ check (runes_of_ascii "MetaData u128 {} MetaData a1 {}// " ++ [128512]%N ++ runes_of_ascii " emoji
-root packet o
-{
-char[ 10 ] stringy@lengthOf(
-/// triple
-// 50% %s
-Z9_ //	t
-) ,
-    match x_y_z as	stringy { 3 : float ,	} , @leftPad	(
-' ' )u128 {
-    repeat i32
-msg_type `it's` , x ,
-repeat char[ //
-65535 ] T
-, match  A as i8i8 { """ ++ [128512]%N ++ runes_of_ascii """ : Logon , },} , }MetaData x_y_z { // @lengthOf(
-options1 a1 , u8x  x_y_z
-`tab	here` ,	char MetaDataX , // " ++ [27880; 37322]%N ++ runes_of_ascii "
-zchar[ 65535
-    ] chars
-    , char[]
-crc`doc`	, }")).
-Eval vm_compute in ("<<<M371>>>" ++ check (runes_of_ascii "MetaData msg_type {//
-u8
-    // `tick` ""quote"" 'q'
-    Foo `// not a comment` ,char[
-    007] Pad
-`u8 x,`,f32
-    o
-    , char[0123456789]
-falsey ,
-    float64 metadata
-, zchar[0123456789
-] uint8x ,}
-    packet // @lengthOf(
-string_
-{ i16 leftPad `// not a comment` ,
-    }packet //
-zchar {
-MetaDataX @calculatedFrom(""a	b""
-    //	t
-    ) //	t
-`tab	here` ,@tag(255 )string
-    i64_
-// 50% %s
-// 50% %s
-,	}")).
-Eval vm_compute in ("<<<M1199>>>" ++ check (runes_of_ascii "// top
-options
-    // c0
-{
-    // c1
-}
-    // c2
-options
-    // c3
-{
-    // c4
-MetaDataX
-    // c5
-=
-    // c6
-char
-    // c7
-;
-    // c8
-}
-    // c9
-MetaData
-    // c10
-Pad
-    // c11
-{
-    // c12
-i8
-    // c13
-metadata
-    // c14
-,
-    // c15
-string
-    // c16
-stringy
-    // c17
-,
-    // c18
-int8
-    // c19
-As
-    // c20
-`{ , }`
-    // c21
-,
-    // c22
-}
-    // c23
+    { } 
+MetaData	string_
+    {
+msg_type
+	Z9_ `line1
+line2` ,
+    }//x
 ")).
-Eval vm_compute in ("<<<M1561>>>" ++ check (runes_of_ascii "
-// a // b
-	root packet u
-
-    { f64	//
-chars
-    @calculatedFrom(""\n""
-)
-,
-@lengthOf(
-msg_type //
-  )
-	x_y_z
-`
-`
-
-,  
-      // " ++ [27880; 37322]%N ++ runes_of_ascii "
-    	// `tick` ""quote"" 'q'
-    repeat	char[
-	0123456789
-
-    ]
-    f32a , repeat
-
-    u8
-	u8x 
-`u8 x,`
-    ,zchar[
-
-3	]
-
-    // " ++ [128512]%N ++ runes_of_ascii " emoji
-  // trailing space 
-  x_y_z
-
-    ,x_y_z
-@lengthOf(len
-	) ,} ")).
-Eval vm_compute in ("<<<M1635>>>" ++ check (runes_of_ascii "  options
-
-    {  falsey=
-
-    42 } options	{ A
-=
-	0123456789
-; options1 =
-    ""// no comment""
-o
-    =  ""// no comment"" 
-; 
-u8x	=
-
-    // 50% %s
-  // 50% %s
-	true 
-;  }
-
-root
-	packet Z9_ // " ++ [128512]%N ++ runes_of_ascii " emoji
-  { 
-}
-	root  packet o { 
-@tag(65535 )	repeat
-    f32
-    Logon
-`100% of %d` 
-,
-
-    }
-")).
-Eval vm_compute in ("<<<M1754>>>" ++ check (runes_of_ascii "
+Eval vm_compute in ("<<<M1365>>>" ++ check (runes_of_ascii "
 options	{
-i8i8
-    = ""\n""
-Header
+    LittleEndian	=
 
-=	""x y""; 	 /// triple
+true;
 
-}root
+StringPrefixLenType
+	=
+	u32 ; ArrayPrefixLenType =
+	u64
 
-packet
+    ; } packet Logon  { string  OrderId
+,uint32 lastPx,
+    repeat	char[6
+    ]Side2,
+    i64
 
-    A	{
-    match
-charz
-    as T{ 
+Tail
+	, repeat  i8 f1
 
-//
-	0
-:  // trailing space 
-  options1 // `tick` ""quote"" 'q'
-  } 
-,  } packet
-	float  /// triple
-	{ @rightPad
+    ,
 
-(
-
-)
-
-    repeat metadata 
-`u8 x,`,  }
-")).
-Eval vm_compute in ("<<<M1412>>>" ++ check (runes_of_ascii "// a // b
-root packet u {
-    f64 chars @calculatedFrom(""\n""),
-    @lengthOf(msg_type)
-    x_y_z `
-    `,
-    // " ++ [27880; 37322]%N ++ runes_of_ascii "
-    // `tick` ""quote"" 'q'
-    repeat char[0123456789] f32a,
-    repeat u8 u8x `u8 x,`,
-    zchar[3] x_y_z,
-    x_y_z @lengthOf(len),
-}")).
-Eval vm_compute in ("<<<M1624>>>" ++ check (runes_of_ascii "packet float {
-    @leftPad(' ')
-    repeat char[] MetaDataX,
-    @leftPad(
-    )
-    i16 x_y_z @calculatedFrom(""CRC32""),
-}
-
-packet chars {
-}
-
-packet asx {
-    @tag(255)
-    @tag(4294967296)
-    @calculatedFrom(""{,}"")
-    matchKey o `
-    `,
-}")).
-Eval vm_compute in ("<<<M537>>>" ++ check (runes_of_ascii "packet
-    asx { @calculatedFrom(
-""""  ) @tag( 255 )repeat
-// packet A { u8 x, }
-// trailing space 
-int16 u8x
-,\
-@tag(
-    //
-    007 )
-    @tag( 0
-    /// triple
-    ) @tag( 1) u
-    @lengthOf( T ),
-// `tick` ""quote"" 'q'
-//x
-} // " ++ [128512]%N ++ runes_of_ascii " emoji")).
-Eval vm_compute in ("<<<M488>>>" ++ check (runes_of_ascii "packet
-    asx { @calculatedFrom(
-""""  ) @tag( 255 )repeat
-// packet A { u8 x, }
-// trailing space 
-int16 u8x
-,
-@tag(
-    //
-    007 )
-    @tag( 0
-    /// triple
-    ) @tag( )1 u
-    @lengthOf( T ),
-// `tick` ""quote"" 'q'
-//x
-} // " ++ [128512]%N ++ runes_of_ascii " emoji")).
-Eval vm_compute in ("<<<M391>>>" ++ check (runes_of_ascii "packet
-     { @calculatedFrom(
-""""  ) @tag( 255 )repeat
-// packet A { u8 x, }
-// trailing space 
-int16 u8x
-,
-@tag(
-    //
-    007 )
-    @tag( 0
-    /// triple
-    ) @tag( 1) u
-    @lengthOf( T ),
-// `tick` ""quote"" 'q'
-//x
-} // " ++ [128512]%N ++ runes_of_ascii " emoji")).
-Eval vm_compute in ("<<<M401>>>" ++ check (runes_of_ascii "packet
-    asx { 
-""""  ) @tag( 255 )repeat
-// packet A { u8 x, }
-// trailing space 
-int16 u8x
-,
-@tag(
-    //
-    007 )
-    @tag( 0
-    /// triple
-    ) @tag( 1) u
-    @lengthOf( T ),
-// `tick` ""quote"" 'q'
-//x
-} // " ++ [128512]%N ++ runes_of_ascii " emoji")).
-Eval vm_compute in ("<<<M1337>>>" ++ check (runes_of_ascii "packet Logon {
-    string user,
-}
-root packet Frame {
-    u8 K,
-    match K as Body {
-        1 : Logon,
-        2 : Logout,
-    },
-    Tail,
-}
-packet Logout {
-    u16 reason,
-}
-packet Tail {
-    u32 crc,
-}
-")).
-Eval vm_compute in ("<<<M1334>>>" ++ check (runes_of_ascii "root packet Frame {
-    u8 K,
-    Logon first,
-    match K as Body {
-        1 : Logon,
-        2 : Logout,
-    },
-}
-packet Logon {
-    string user,
-}
-packet Logout {
-    u16 reason,
-}
-")).
-Eval vm_compute in ("<<<M617>>>" ++ check (runes_of_ascii "MetaData u
-    { } MetaData o
-{ float uint8x
-`100% of %d` ,repeatCount u8x, string_ string_ leftPad
-, i32
-    Foo , int64 x `two words` , calculatedFrom
-stringy `a\` ,
-}
-")).
-Eval vm_compute in ("<<<M710>>>" ++ check (runes_of_ascii "packet
-crc
-{repeat  Foo `u8 x,`  A ,	@lengthOf( uint8x ) string
-matchKey @lengthOf( stringy ) `a\`
-,
-    // c
     }
-MetaData chars{
-leftPad
-    //	t
-    crc
-`" ++ [233]%N ++ runes_of_ascii "`
-,}")).
-Eval vm_compute in ("<<<M703>>>" ++ check (runes_of_ascii "MetaData u
-    { } MetaData o
-{ float uint8x
-`100% of %d` ,repeatCount u8x, string_ leftPad
-, i32
-    Foo , int64 x `two wor`ds` , calculatedFrom
-stringy `a\` ,
-}
-")).
-Eval vm_compute in ("<<<M648>>>" ++ check (runes_of_ascii "MetaData u
-    { } MetaData o
-{ float uint8x
-`100% of %d` ,repeatCount u8x, string_ leftPad
-, i32
-    Foo , x int64 `two words` , calculatedFrom
-stringy `a\` ,
-}
-")).
-Eval vm_compute in ("<<<M1620>>>" ++ check (runes_of_ascii "  packet
-	A 
-{match	k	as	n
+
+    packet
+Party
 
     {
 
-    [
-	""a""
+}
+	packet
+    Quote{
+repeat 
+char[
+6	]clOrdID ,  repeat Logon 
 ,
-""bb""	,
-""c c""
 
-, 
-""d"", ""e"" ,""f"",
+    }
+    root
+packet
 
-    ""g"",""h"",
-    ""i""
+Order 
+{zchar[ 5
+    ] Acct,repeat f64 price , }
+
+")).
+Eval vm_compute in ("<<<M1911>>>" ++ check (runes_of_ascii "MetaData chars {
+    char[] f32a `" ++ [28040; 24687; 31867; 22411]%N ++ runes_of_ascii "`,
+    zchar[255] calculatedFrom,// @lengthOf(
+    a1 metadata,
+    // a // b
+    u i64_ `
+        `,
+    A asx `100% of %d`,
+}
+
+// `tick` ""quote"" 'q'
+MetaData int {
+    char[] As `// not a comment`,
+}
+
+MetaData Header {
+    int16 charz,
+    uint64 u8x,
+    string zchar,
+    float64 options1 `// not a comment`,
+    uint64 stringy,
+}")).
+Eval vm_compute in ("<<<M1569>>>" ++ check (runes_of_ascii "options {
+    rootA = i16;
+}
+
+MetaData len {
+    float64 pack `crlf
+    line`,
+    a1 roots,
+    int16 Header,
+    zchar[65535] charz,
+    Packet body `say ""hi""`,// `tick` ""quote"" 'q'
+    repeatCount x `line1
+    line2`,
+    // packet A { u8 x, }
+}
+
+options {
+    a1 = ""`tick`"";
+    float = """ ++ [233]%N ++ runes_of_ascii "t" ++ [233]%N ++ runes_of_ascii """;
+    Logon = zchar[00];
+    Header = '0';
+}")).
+Eval vm_compute in ("<<<M1954>>>" ++ check (runes_of_ascii "// top
+MetaData msg_type {
+    int32 As `crlf
+        line`,
+    // c6
+    MetaDataX x `a\`,// c10a
+    // c10b
+    int8 _x,// c13a
+    // c13b
+    char[] As `u8 x,`,
+    // c17
+    zchar[3] uint8x,// c22a
+    // c22b
+    As Foo,// c25a
+    // c25b
+}// c26
+
+root packet repeatCount {
+    // c30
+}// c31")).
+Eval vm_compute in ("<<<M272>>>" ++ check (runes_of_ascii "// c
+packet BodyLength
+{ @tag(
+    42) Header tag
+    `u8 x,`
+, } options { } packet string_
+{	float32
+rootA , uint8 MetaDataX `crlf
+line`,
+charz
+    // " ++ [128512]%N ++ runes_of_ascii " emoji
+    ,  @tag(  4294967296) @rightPad( '\x00' )	@tag(7	)
+    // c
+    u32 u128 //x
+@calculatedFrom(""\" ++ [233]%N ++ runes_of_ascii """ ) ,
+}")).
+Eval vm_compute in ("<<<M523>>>" ++ check (runes_of_ascii "packet
+    asx { @calculatedFrom(
+""""  ) @tag( 255 )repeat
+// packet A { u8 x, }
+// trailing space 
+int16 u8x
+,
+@tag(
+    //
+    007 )
+    @tag( 0
+    /// triple
+    ) @tag( 1) u
+    @lengthOf( T ),
+// `tick` ""quote"" 'q'
+//x
+@lengthOf( // " ++ [128512]%N ++ runes_of_ascii " emoji")).
+Eval vm_compute in ("<<<M254>>>" ++ check (runes_of_ascii "options
+    // 50% %s
+    { //
+u128=zchar[10	]	;	body = '0' Z9_ =float64 ; i8i8 = ""a\\""
+    ; } packet T  {
+char[ 42] asx
+    @calculatedFrom(/// triple
+""CRC32""
+),}
+// trailing space 
+// " ++ [128512]%N ++ runes_of_ascii " emoji
+root packet x { Pad u128 `100% of %d`
+, } 	 ")).
+Eval vm_compute in ("<<<M389>>>" ++ check (runes_of_ascii "asx
+    packet { @calculatedFrom(
+""""  ) @tag( 255 )repeat
+// packet A { u8 x, }
+// trailing space 
+int16 u8x
+,
+@tag(
+    //
+    007 )
+    @tag( 0
+    /// triple
+    ) @tag( 1) u
+    @lengthOf( T ),
+// `tick` ""quote"" 'q'
+//x
+} // " ++ [128512]%N ++ runes_of_ascii " emoji")).
+Eval vm_compute in ("<<<M518>>>" ++ check (runes_of_ascii "packet
+    asx { @calculatedFrom(
+""""  ) @tag( 255 )repeat
+// packet A { u8 x, }
+// trailing space 
+int16 u8x
+,
+@tag(
+    //
+    007 )
+    @tag( 0
+    /// triple
+    ) @tag( 1) u
+    @lengthOf( T )}
+// `tick` ""quote"" 'q'
+//x
+, // " ++ [128512]%N ++ runes_of_ascii " emoji")).
+Eval vm_compute in ("<<<M466>>>" ++ check (runes_of_ascii "packet
+    asx { @calculatedFrom(
+""""  ) @tag( 255 )repeat
+// packet A { u8 x, }
+// trailing space 
+int16 u8x
+,
+@tag(
+    //
+    007 )
+     0
+    /// triple
+    ) @tag( 1) u
+    @lengthOf( T ),
+// `tick` ""quote"" 'q'
+//x
+} // " ++ [128512]%N ++ runes_of_ascii " emoji")).
+Eval vm_compute in ("<<<M1713>>>" ++ check (runes_of_ascii "
+
+  packet pack {  } options  { 
+_x
+
+    =
+""1"" ;
+
+    tag
+	=007
+
+    matchKey 
+=
+	""it's""
+	;
+charz =
+	uint16
+
+; 
+}// @lengthOf(
+options  { msg_type = 
+007 ; stringy
+
+    =
+""`tick`""
+
+    stringy = 007 ;
+} ")).
+Eval vm_compute in ("<<<M4>>>" ++ check (runes_of_ascii "MetaData
+    // " ++ [128512]%N ++ runes_of_ascii " emoji
+    u { float64 A , calculatedFrom zchar, char[1]
+repeatCount, int32
+x_y_z , u16 Packet`say ""hi""`
+    // " ++ [128512]%N ++ runes_of_ascii " emoji
     ,
-
-    ""j""
+    // a // b
+    }options
+{ repeatCount = ' ' }
+")).
+Eval vm_compute in ("<<<M87>>>" ++ check (runes_of_ascii "
+options { lengthOf = """ ++ [233]%N ++ runes_of_ascii "t" ++ [233]%N ++ runes_of_ascii """options1
+=
+    u32
+    // packet A { u8 x, }
+    ; Pad=// @lengthOf(
+'0'
+BodyLength
+    = 00
+}
+    packet
+x
+{ @rightPad( '0' ) string
+    Header ,}
+")).
+Eval vm_compute in ("<<<M485>>>" ++ check (runes_of_ascii "packet
+    asx { @calculatedFrom(
+""""  ) @tag( 255 )repeat
+// packet A { u8 x, }
+// trailing space 
+int16 u8x
 ,
-
-    ""k""
-]  : B
-2 : C	}
-	, } ")).
-Eval vm_compute in ("<<<M604>>>" ++ check (runes_of_ascii "MetaData u
+@tag(
+    //
+    007 )
+    @tag( 0
+    /// triple
+    )")).
+Eval vm_compute in ("<<<M649>>>" ++ check (runes_of_ascii "MetaData u
     { } MetaData o
 { float uint8x
-`100% of %d` ,u64 u8x, string_ leftPad
+`100% of %d` ,repeatCount u8x, string_ leftPad
+, i32
+    Foo , options x `two words` , calculatedFrom
+stringy `a\` ,
+}
+")).
+Eval vm_compute in ("<<<M573>>>" ++ check (runes_of_ascii "MetaData u
+    { } MetaData {
+o float uint8x
+`100% of %d` ,repeatCount u8x, string_ leftPad
 , i32
     Foo , int64 x `two words` , calculatedFrom
 stringy `a\` ,
 }
 ")).
-Eval vm_compute in ("<<<M1818>>>" ++ check (runes_of_ascii "MetaData crc {
-    packetx repeatCount,
-    f32a As `line1
-    line2`,
-    crc len `line1
-    line2`,
-    zchar[0123456789] uint8x,
-    zchar[0] As,
-}")).
-Eval vm_compute in ("<<<M1849>>>" ++ check (runes_of_ascii "packet A {
-    match k as n {
-        [
-            ""a"", ""bb"", ""c c"", ""d"", ""e"",
-            ""f"", ""g""
-        ] : B,
-        2 : C,
-    },
-}")).
-Eval vm_compute in ("<<<M1710>>>" ++ check (runes_of_ascii "packet A {
-    match k as n {
-        [
-            1, ""bb"", 007, ""d"", 5,
-            ""f"", 7
-        ] : B,
-        2 : C,
-    },
-}")).
-Eval vm_compute in ("<<<M1275>>>" ++ check (runes_of_ascii "packet B {
-    u8 a,
-}
-root packet P {
-    u8 K,
-    match K as Body {
-        1 : B,
-    },
-    u16 L @lengthOf(Body),
+Eval vm_compute in ("<<<M571>>>" ++ check (runes_of_ascii "MetaData u
+    { } MetaData 
+{ float uint8x
+`100% of %d` ,repeatCount u8x, string_ leftPad
+, i32
+    Foo , int64 x `two words` , calculatedFrom
+stringy `a\` ,
 }
 ")).
-Eval vm_compute in ("<<<M959>>>" ++ check (runes_of_ascii "packet A {
-    u16 len @lengthOf(body) `tab
-	x`,
-    u32 crc @calculatedFrom(""CRC32"") `tab
-	x`,
-    string body,
-}")).
-Eval vm_compute in ("<<<M1225>>>" ++ check (runes_of_ascii "options { } options { MetaDataX = char ; } MetaData Pad // c
-{ i8 metadata , string stringy , int8 As `{ , }` , }")).
-Eval vm_compute in ("<<<M912>>>" ++ check (runes_of_ascii "packet A {
-  match k as n {
-    [""a"", ""bb"", 007, ""d"", ""e"", 66, ""g"", ""h"", 9, ""j"", ""k"", 12] : B,
-    2 : C
-  },
-}")).
-Eval vm_compute in ("<<<M978>>>" ++ check (runes_of_ascii "packet A {
+Eval vm_compute in ("<<<M1724>>>" ++ check (runes_of_ascii "options
+
+{  }
+	options	{ MetaDataX 
+  // c
+=
+
+    char
+
+    ;
+
+    } MetaData 
+Pad
+
+{  i8 metadata 
+,
+    string
+
+    stringy  ,
+
+int8 
+As `{ , }`	, }
+")).
+Eval vm_compute in ("<<<M261>>>" ++ check (runes_of_ascii "packet u8x { char[]
+f32a @lengthOf(Foo ) `100% of %d` , repeat
+i8i8 {  A f32a , x `say ""hi""`,
+    // @lengthOf(
+    repeat body rootA `
+`
+    , }
+, }
+
+")).
+Eval vm_compute in ("<<<M317>>>" ++ check (runes_of_ascii "root	packet // " ++ [27880; 37322]%N ++ runes_of_ascii "
+matchKey {	Z9_ @calculatedFrom("""") ,  } MetaData pack
+    {
+    u32 leftPad, x zchar , uint32  i8i8	, u16
+    zchar ,
+    }
+")).
+Eval vm_compute in ("<<<M1663>>>" ++ check (runes_of_ascii "
+
+  packet A
+	{match k
+as
+	n
+
+{ [1,""bb""  ,
+	007
+    , ""d"",
+
+    5,
+
+    ""f""
+    ,  7,
+    ""h""
+, 9 ,  ""j"" 
+]
+
+:
+	B	,2 :
+C }
+,
+
+} ")).
+Eval vm_compute in ("<<<M1597>>>" ++ check (runes_of_ascii "packet A {
     Inner {
-        u8 x `%%d%!`,
+        u8 x `tab
+        	x`,
         Deep {
-            u8 y `%%d%!`,
+            u8 y `tab
+            	x`,
         },
     },
 }")).
-Eval vm_compute in ("<<<M1548>>>" ++ check (runes_of_ascii "packet
-A{ match
-    k as n{
-
-[ 1	,
-22
-,
-	007
-
-    ,
-4 , 5
-, 66 
-,7
-
-    ]
-
-:
-
-B 2: 
-C
-    } ,}")).
-Eval vm_compute in ("<<<M853>>>" ++ check (runes_of_ascii "packet A {
-  match k as n {
-    [""a"", ""bb"", ""c c"", ""d"", ""e"", ""f"", ""g"", ""h""] : B
-    2 : C
-  },
-}")).
-Eval vm_compute in ("<<<M630>>>" ++ check (runes_of_ascii "MetaData u
-    { } MetaData o
-{ float uint8x
-`100% of %d` ,repeatCount u8x, string_ leftPad")).
-Eval vm_compute in ("<<<M178>>>" ++ check (runes_of_ascii "packet trueish { @leftPad (
-' ' )
-@lengthOf( A
-)// c
-@lengthOf(
-A )string
-msg_type
-,}
-")).
-Eval vm_compute in ("<<<M859>>>" ++ check (runes_of_ascii "packet A {
-  match k as n {
-    [1, 22, ""c c"", 4, 5, ""f"", 7, 8] : B
-    2 : C
-  },
-}")).
-Eval vm_compute in ("<<<M821>>>" ++ check (runes_of_ascii "packet A {
-  match k as n {
-    [""a"", ""bb"", 007, ""d"", ""e""] : B,
-    2 : C
-  },
-}")).
-Eval vm_compute in ("<<<M808>>>" ++ check (runes_of_ascii "packet A {
-  match k as n {
-    [""a"", ""bb"", 007, ""d""] : B,
-    2 : C
-  },
-}")).
-Eval vm_compute in ("<<<M1418>>>" ++ check (runes_of_ascii "packet A {
-    match k as n {
-        [""a""] : B,
-        2 : C,
-    },
-}")).
-Eval vm_compute in ("<<<M171>>>" ++ check (runes_of_ascii "MetaData
-//
-// " ++ [128512]%N ++ runes_of_ascii " emoji
-falsey { char[] f32a
-, //	t
-} packet
-As{
+Eval vm_compute in ("<<<M1774>>>" ++ check (runes_of_ascii "packet asx {
+    f32 u @calculatedFrom(""packet""),
 }
-")).
-Eval vm_compute in ("<<<M65>>>" ++ check (runes_of_ascii "packet leftPad
-{ i16 charz // trailing space 
-, // @lengthOf(
+
+MetaData tag {
+    zchar[007] pack,
+    zchar[00] len `
+    `,
 }")).
+Eval vm_compute in ("<<<M1216>>>" ++ check (runes_of_ascii "options { } options { MetaDataX =
+// c
+char ; } MetaData Pad { i8 metadata , string stringy , int8 As `{ , }` , }")).
+Eval vm_compute in ("<<<M1248>>>" ++ check (runes_of_ascii "options { } options { MetaDataX = char ; } MetaData Pad { i8 metadata , string stringy , int8 As `{ , }` ,
+// c
+}")).
+Eval vm_compute in ("<<<M900>>>" ++ check (runes_of_ascii "packet A {
+  match k as n {
+    [""a"", ""bb"", 007, ""d"", ""e"", 66, ""g"", ""h"", 9, ""j"", ""k""] : B
+    2 : C
+  },
+}")).
+Eval vm_compute in ("<<<M866>>>" ++ check (runes_of_ascii "packet A {
+  match k as n {
+    [""a"", ""bb"", ""c c"", ""d"", ""e"", ""f"", ""g"", ""h"", ""i""] : B
+    2 : C
+  },
+}")).
+Eval vm_compute in ("<<<M898>>>" ++ check (runes_of_ascii "packet A {
+  match k as n {
+    [1, 22, ""c c"", 4, 5, ""f"", 7, 8, ""i"", 10, 11] : B
+    2 : C
+  },
+}")).
+Eval vm_compute in ("<<<M889>>>" ++ check (runes_of_ascii "packet A {
+  match k as n {
+    [1, 22, 007, 4, 5, 66, 7, 8, 9, 10, 11] : B,
+    2 : C
+  },
+}")).
+Eval vm_compute in ("<<<M341>>>" ++ check (runes_of_ascii "MetaData rootA {
+uint8 msg_type ,zchar[
+    //
+    42 ]
+    As, T int
+    , } // a // b")).
+Eval vm_compute in ("<<<M834>>>" ++ check (runes_of_ascii "packet A {
+  match k as n {
+    [""a"", ""bb"", 007, ""d"", ""e"", 66] : B,
+    2 : C
+  },
+}")).
+Eval vm_compute in ("<<<M1481>>>" ++ check (runes_of_ascii "// top
+MetaData
+    // c0
+    tag 
+
+    // c1
+{ 
+	    // c2
+    	}
+    // c3
+")).
+Eval vm_compute in ("<<<M901>>>" ++ check (runes_of_ascii "packet A { Inner { match k as n { [1,22,007,4,5,66,7,8,9,10,11] : B, }, }, }")).
+Eval vm_compute in ("<<<M805>>>" ++ check (runes_of_ascii "packet A {
+  match k as n {
+    [""a"", 22, ""c c"", 4] : B
+    2 : C
+  },
+}")).
+Eval vm_compute in ("<<<M29>>>" ++ check (runes_of_ascii "
+packet options1{ @tag(
+007 )repeat char[
+0123456789] Logon`doc` ,
+}")).
+Eval vm_compute in ("<<<M244>>>" ++ check (runes_of_ascii "root // " ++ [27880; 37322]%N ++ runes_of_ascii "
+packet lengthOf
+{
+}
+    // " ++ [128512]%N ++ runes_of_ascii " emoji
+    options
+{}
+")).
 Eval vm_compute in ("<<<M1298>>>" ++ check (runes_of_ascii "root packet P {
     repeat string ss,
     repeat u16 ns,
 }
 ")).
-Eval vm_compute in ("<<<M236>>>" ++ check (runes_of_ascii "  MetaData // `tick` ""quote"" 'q'
-u128{ body float	,}
+Eval vm_compute in ("<<<M139>>>" ++ check (runes_of_ascii "MetaData // " ++ [128512]%N ++ runes_of_ascii " emoji
+Logon {
+char[42 ]Packet , //x
+}
 ")).
-Eval vm_compute in ("<<<M91>>>" ++ check (runes_of_ascii "// c
-MetaData leftPad { msg_type As
-`{ , }`
-,}
-")).
-Eval vm_compute in ("<<<M1541>>>" ++ check (runes_of_ascii "  root
-
-    packet
-
-A
-	{
-u8
-x
-
-`%`, }
-")).
-Eval vm_compute in ("<<<M1521>>>" ++ check (runes_of_ascii "root packet A {
+Eval vm_compute in ("<<<M943>>>" ++ check (runes_of_ascii "MetaData M {
     u8 x `a
-    b`,
+
+b`,
+    T t `a
+
+b`,
 }")).
-Eval vm_compute in ("<<<M1650>>>" ++ check (runes_of_ascii "root packet A {
-    u8 x `x
-    `,
+Eval vm_compute in ("<<<M963>>>" ++ check (runes_of_ascii "packet A {
+    u8 x `100% of %s %d %v`,
 }")).
-Eval vm_compute in ("<<<M1082>>>" ++ check (runes_of_ascii "packet A {
- u8 x `d x`, // c x
+Eval vm_compute in ("<<<M1115>>>" ++ check (runes_of_ascii "packet A { u8 x,// a
+
+
+// b
+
+ u8 y, }")).
+Eval vm_compute in ("<<<M332>>>" ++ check (runes_of_ascii "  MetaData
+u8x  {float32
+uint8x ,}")).
+Eval vm_compute in ("<<<M956>>>" ++ check (runes_of_ascii "root packet A {
+    u8 x `
+x`,
 }")).
-Eval vm_compute in ("<<<M1067>>>" ++ check (runes_of_ascii "packet A {
- u8 x `d" ++ [8203]%N ++ runes_of_ascii "`, // c" ++ [8203]%N ++ runes_of_ascii "
+Eval vm_compute in ("<<<M1032>>>" ++ check (runes_of_ascii "packet A {
+ u8 x `d" ++ [8232]%N ++ runes_of_ascii "`, // c" ++ [8232]%N ++ runes_of_ascii "
 }")).
-Eval vm_compute in ("<<<M765>>>" ++ check (runes_of_ascii "@tag( f64 u8 u16 i64 ""a\\""")).
-Eval vm_compute in ("<<<M1148>>>" ++ check (runes_of_ascii "root packet a1
-// c
-{ }")).
-Eval vm_compute in ("<<<M167>>>" ++ check (runes_of_ascii "MetaData u8x{}
+Eval vm_compute in ("<<<M951>>>" ++ check (runes_of_ascii "packet A {
+    u8 x `
+x`,
+}")).
+Eval vm_compute in ("<<<M1143>>>" ++ check (runes_of_ascii "root // c
+packet a1 { }")).
+Eval vm_compute in ("<<<M52>>>" ++ check (runes_of_ascii "packet
+int {
+}
 //	t
 ")).
-Eval vm_compute in ("<<<M1046>>>" ++ check (runes_of_ascii "// c" ++ [8287]%N ++ runes_of_ascii "
-packet A {
-}")).
-Eval vm_compute in ("<<<M1048>>>" ++ check (runes_of_ascii "packet A {
-}// c" ++ [11]%N)).
-Eval vm_compute in ("<<<M746>>>" ++ check (runes_of_ascii "uint64 int16 {")).
-Eval vm_compute in ("<<<M1034>>>" ++ check (runes_of_ascii "// c" ++ [8233]%N)).
+Eval vm_compute in ("<<<M1045>>>" ++ check (runes_of_ascii "packet A {
+}
+// c" ++ [8287]%N)).
+Eval vm_compute in ("<<<M1038>>>" ++ check (runes_of_ascii "packet A {
+}// c" ++ [8239]%N)).
+Eval vm_compute in ("<<<M735>>>" ++ check ([0]%N ++ runes_of_ascii "k" ++ [23; 65533; 21; 31; 65533; 65533; 15473; 65533; 65533; 127; 822; 65533]%N)).
+Eval vm_compute in ("<<<M1014>>>" ++ check (runes_of_ascii "// c" ++ [5760]%N)).
